@@ -13,7 +13,7 @@ import math
 
 import z3
 
-from .core import OutOfSubset, is_z3, z3num, z3bool, PyRaise
+from .core import fresh_name, OutOfSubset, is_z3, z3num, z3bool, PyRaise
 from .values import NTuple, EnumVal, StrSeq, Tok, PyList, SliceVal, Ext, Opaque, Inst, FuncVal, StrId
 
 pow2 = z3.Function("pow2", z3.IntSort(), z3.IntSort())
@@ -357,6 +357,12 @@ def ite(c, a, b):
         return tuple(ite(c, x, y) for x, y in zip(a, b))
     if a is b:
         return a
+    from .values import Opaque as _Opaque
+    if isinstance(a, _Opaque) and isinstance(b, _Opaque) and a.kind == b.kind:
+        if a.name == b.name:
+            return a
+        # one of two opaque objects of the same kind: an opaque object of that kind about which nothing is known
+        return _Opaque(a.kind, fresh_name("either_%s" % a.kind))
     raise OutOfSubset("if-then-else over structured values %r / %r" % (type(a).__name__, type(b).__name__))
 
 
